@@ -1,6 +1,6 @@
 (* C08 -- property theorems only.  Proofs live in C08/Proofs*.v. *)
 From Coq Require Import NArith List Bool Permutation.
-From DV Require Import Base.Outcome C08.Gen C08.Model C08.Spec C08.ProofsQuery C08.ProofsBuild C08.ProofsHist C08.ProofsGood C08.ProofsPlain C08.ProofsGroup C08.ProofsSafe C08.ProofsTree C08.ProofsSafe2 C08.ToMessage C08.ProofsOrder C08.ProofsSafe3.
+From DV Require Import Base.Outcome C08.Gen C08.Model C08.Spec C08.ProofsQuery C08.ProofsBuild C08.ProofsHist C08.ProofsGood C08.ProofsPlain C08.ProofsGroup C08.ProofsSafe C08.ProofsTree C08.ProofsSafe2 C08.ToMessage C08.ProofsOrder C08.ProofsSafe3 C08.ProofsNeg.
 From DV Require C02.Model C02.ProofsTotal.
 Import ListNotations.
 Local Open Scope N_scope.
@@ -277,3 +277,57 @@ Theorem C08_to_message_parses_to_answer :
                  C02.Model.acc_eqb parsed (intended enc_name enc_rdata prefixed qname qtype qclass glue_class a) = true.
 Proof. exact to_message_parses_to_answer. Qed.
 Print Assumptions C08_to_message_parses_to_answer.
+
+(* round 5: negative answers of ANY tree (whatever its history) carry the SOA; only referrals are not authoritative *)
+Theorem C08_negative_carries_soa : forall z q qt s, get_soa z = Some s ->
+  a_content (query z q qt) = ANoData -> a_aa (query z q qt) = true ->
+  a_auth (query z q qt) = Some (mkAuth [] (Some s) None None) /\ a_addl (query z q qt) = [].
+Proof. exact negative_carries_soa. Qed.
+Print Assumptions C08_negative_carries_soa.
+
+Theorem C08_nxdomain_answer_form : forall z q qt, a_rcode (query z q qt) = rc_nxdomain ->
+  a_content (query z q qt) = ANoData /\ a_aa (query z q qt) = true /\ a_addl (query z q qt) = [] /\
+  a_auth (query z q qt) = match get_soa z with Some s => Some (mkAuth [] (Some s) None None) | None => None end.
+Proof. exact nxdomain_answer_form. Qed.
+Print Assumptions C08_nxdomain_answer_form.
+
+Theorem C08_non_authoritative_is_referral : forall z q qt, a_aa (query z q qt) = false ->
+  exists c, a_auth (query z q qt) = Some (mkAuth (c_name c) None (Some (c_ns c)) (c_ds c)) /\
+            a_addl (query z q qt) = c_glue c /\ a_content (query z q qt) = ANoData /\
+            a_rcode (query z q qt) = rc_noerror.
+Proof. exact non_authoritative_is_referral. Qed.
+Print Assumptions C08_non_authoritative_is_referral.
+
+(* built zones: NODATA for existing names (empty non-terminals included), NXDOMAIN exactly when neither
+   the name nor the closest encloser's wildcard exists, wildcard synthesis otherwise *)
+Theorem C08_nodata_for_existing_names : forall zf q qt, wf_zone zf = true ->
+  find_cut (flat_view zf) q = None -> exists_name zf q = true ->
+  alookup q (zf_cuts zf) = None -> alookup q (zf_cnames zf) = None ->
+  match alookup q (zf_normal zf) with
+  | None => True
+  | Some rs => qt <> rt_any /\ get_rrset qt rs = None
+  end ->
+  query (fst (zf_build zf)) q qt = finish (C08.Spec.soa_of zf) spec_nodata.
+Proof. exact nodata_for_existing_names. Qed.
+Print Assumptions C08_nodata_for_existing_names.
+
+Theorem C08_nxdomain_iff : forall zf q qt, wf_zone zf = true ->
+  (a_rcode (query (fst (zf_build zf)) q qt) = rc_nxdomain <->
+   find_cut (flat_view zf) q = None /\ exists_name zf q = false /\
+   exists_name zf (closest_encloser (flat_view zf) q ++ [wild_label]) = false).
+Proof. exact nxdomain_iff. Qed.
+Print Assumptions C08_nxdomain_iff.
+
+Theorem C08_wildcard_synthesis : forall zf q qt, wf_zone zf = true ->
+  find_cut (flat_view zf) q = None -> exists_name zf q = false ->
+  exists_name zf (closest_encloser (flat_view zf) q ++ [wild_label]) = true ->
+  query (fst (zf_build zf)) q qt =
+  finish (C08.Spec.soa_of zf) (spec_at (info_at_g (zf_normal zf) zf (closest_encloser (flat_view zf) q ++ [wild_label])) qt) /\
+  a_rcode (query (fst (zf_build zf)) q qt) = rc_noerror.
+Proof. exact wildcard_synthesis. Qed.
+Print Assumptions C08_wildcard_synthesis.
+
+(* ZoneTree::iter_zones lists every zone get_zone finds, in every class *)
+Theorem C08_zonetree_get_in_iter : forall c p r z, zr_getz c p r = Some z -> In z (zr_list r).
+Proof. exact zonetree_get_in_iter. Qed.
+Print Assumptions C08_zonetree_get_in_iter.
